@@ -339,7 +339,7 @@ def case_backend(case):
             elif k == "unit_enum":
                 en.append(ir.enum_unit(nm, [ir.v_unit("Va"), ir.v_unit("Vb")]))
             elif k == "alg_enum":
-                en.append(ir.enum_alg(nm, [ir.v_unit("Va"), ir.v_tuple("Vb", u32), ir.v_anon("Vc", [ir.field("x", u32)])], tag="t", content="c"))
+                en.append(ir.enum_alg(nm, [ir.v_unit("Va"), ir.v_tuple("Vb", u32), ir.v_anon("Vc", [ir.field("x", u32)]), ir.v_anon("Vd", [])], tag="t", content="c"))
             else:
                 co.append(ir.const(nm, u32, 7))
         pd = ir.parsed_data(structs=st, enums=en, aliases=al, consts=co)
@@ -371,6 +371,22 @@ def case_backend(case):
                 m = I.sat_model(z3.BoolVal(True))
                 nm = BK_LETTER[k] + chr(m.eval(syms[k], model_completion=True).as_long())
                 res["violations"].append({"kind": "item-not-defined-once", "item": k, "name": nm, "count": n_valid})
+        # helper types derived from struct variants (`<Enum><Variant>Inner`): every one that is referenced is defined, and
+        # the back ends that use helpers define one per struct variant (also for a variant whose fields are all gone)
+        if "alg_enum" in kinds:
+            uses = [(m.start(), m.end()) for m in _re.finditer(r"%s+Inner" % _IDC, sk.text)]
+            def valid_eq(a, b):
+                e = seq_eq(I, sk.terms(a), sk.terms(b))
+                return e is True or (e is not False and I.sat_model(z3.Not(e)) is None)
+            missing = [u for u in uses if not any(valid_eq(u, sp) for sp in spans)]
+            if missing:
+                m = I.sat_model(z3.BoolVal(True))
+                nm = "".join(chr(c) if isinstance(c, int) else chr(m.eval(c, model_completion=True).as_long()) for c in sk.terms(missing[0]))
+                res["violations"].append({"kind": "helper-type-not-defined", "item": "alg_enum", "name": nm, "enum": "D" + chr(m.eval(syms["alg_enum"], model_completion=True).as_long())})
+            n_helpers = len([sp for sp in spans if sk.str(sp).endswith("Inner")])
+            if lang != "typescript" and n_helpers != 2:
+                m = I.sat_model(z3.BoolVal(True))
+                res["violations"].append({"kind": "helper-type-count", "item": "alg_enum", "count": n_helpers, "enum": "D" + chr(m.eval(syms["alg_enum"], model_completion=True).as_long())})
         if "struct" in kinds and lang != "swift":
             # the struct lists its three fields in source order
             want = [ord("S"), syms["struct"]]
@@ -389,14 +405,17 @@ def case_backend(case):
 
 
 BK_SRC = {"struct": "#[typeshare]\npub struct %s { pub fa: u32, pub fb: String, pub fc: bool }\n", "alias": "#[typeshare]\npub type %s = Vec<u32>;\n",
-          "unit_enum": "#[typeshare]\npub enum %s { Va, Vb }\n", "alg_enum": "#[typeshare]\n#[serde(tag = \"t\", content = \"c\")]\npub enum %s { Va, Vb(u32), Vc { x: u32 } }\n",
+          "unit_enum": "#[typeshare]\npub enum %s { Va, Vb }\n", "alg_enum": "#[typeshare]\n#[serde(tag = \"t\", content = \"c\")]\npub enum %s { Va, Vb(u32), Vc { x: u32 }, Vd {} }\n",
           "const": "#[typeshare]\npub const %s: u32 = 7;\n"}
 
 
 def native_backend(nat, lang, kinds, v):
     """the same items through the real parser + back end"""
     names = {k: BK_LETTER[k] + ("5" if k == "const" else "q") for k in kinds}
-    names[v["item"]] = v["name"] if "name" in v else names[v["item"]]
+    if v["kind"] in ("helper-type-not-defined", "helper-type-count"):
+        names["alg_enum"] = v.get("enum", names.get("alg_enum"))
+    elif "name" in v:
+        names[v["item"]] = v["name"]
     src = "".join(BK_SRC[k] % names[k] for k in kinds)
     r = nat.ask({"op": "generate", "lang": lang, "multi_file": False, "files": [{"source": src, "crate_name": "", "file_name": "", "file_path": "src/lib.rs"}],
                  "config": {"go": {"package": "proto"}, "scala": {"package": "com.agilebits.onepassword"}}.get(lang, {})})
@@ -405,6 +424,15 @@ def native_backend(nat, lang, kinds, v):
     text = r["out"].get("", "")
     sk = Skel([ord(c) for c in text])
     defined = [m.group(m.lastindex) for m in _re.finditer(BK_DEFINED[lang], sk.text, _re.M)]
+    if v["kind"] in ("helper-type-not-defined", "helper-type-count"):
+        uses = sorted(set(_re.findall(r"\w+Inner", text)))
+        undefined = [u for u in uses if u not in defined]
+        n = len([d for d in defined if d.endswith("Inner")])
+        if undefined:
+            return True, "--lang %s: enum %s with struct variants `Vc { x: u32 }` and `Vd {}`: the output refers to %s but never defines it" % (lang, names["alg_enum"], undefined), src
+        if lang != "typescript" and n != 2:
+            return True, "--lang %s: enum %s has two struct variants but %d helper types are defined (%s)" % (lang, names["alg_enum"], n, [d for d in defined if d.endswith("Inner")]), src
+        return False, "real output defines every helper type it uses: %s" % uses, src
     if v["kind"] == "item-not-defined-once":
         n = defined.count(names[v["item"]])
         if n != 1:
